@@ -115,6 +115,7 @@ package edge
 //@   trusted
 //@   modifies nothing
 //@   ensures result != nil && result != recv && !gfi(result, mutated, bool)
+//@   ensures result.Time() == recv.Time() && result.Fields() == recv.Fields() && result.Tags() == recv.Tags()
 //@ func (BeginBatchMessage).ShallowCopy
 //@   trusted
 //@   modifies nothing
